@@ -182,6 +182,10 @@ type codeStore struct { // {{{
 	// pc following the latest word that is data rather than an instruction
 	// (the block number after an extended SETLIST); 0 if there is none
 	datapc int
+	// label that an OP_JMP at a given pc jumps to, until patchCode turns it into a distance.
+	// Label numbers are not stored in the instruction: the 18-bit sBx field cannot hold more
+	// than 131072 of them and a function may well have more labels than that.
+	jmpLabels map[int]int
 }
 
 func (cd *codeStore) Add(inst uint32, line int) {
@@ -212,6 +216,25 @@ func (cd *codeStore) AddABx(op int, a int, bx int, line int) {
 
 func (cd *codeStore) AddASbx(op int, a int, sbx int, line int) {
 	cd.Add(opCreateASbx(op, a, sbx), line)
+}
+
+// AddJmp appends a jump to the given label.
+func (cd *codeStore) AddJmp(label int, line int) {
+	cd.Add(opCreateASbx(OP_JMP, 0, 0), line)
+	cd.SetJmpLabel(cd.pc-1, label)
+}
+
+// SetJmpLabel makes the OP_JMP at pc jump to the given label.
+func (cd *codeStore) SetJmpLabel(pc int, label int) {
+	if cd.jmpLabels == nil {
+		cd.jmpLabels = map[int]int{}
+	}
+	cd.jmpLabels[pc] = label
+}
+
+// JmpLabel is the label the (not yet patched) OP_JMP at pc jumps to.
+func (cd *codeStore) JmpLabel(pc int) int {
+	return cd.jmpLabels[pc]
 }
 
 func (cd *codeStore) PropagateKMV(top int, save *int, reg *int, inc int) {
@@ -463,7 +486,7 @@ type pendingBreak struct {
 func newFuncContext(sourcename string, parent *funcContext) *funcContext {
 	fc := &funcContext{
 		Proto:           newFunctionProto(sourcename),
-		Code:            &codeStore{make([]uint32, 0, 1024), make([]int, 0, 1024), 0, 0},
+		Code:            &codeStore{codes: make([]uint32, 0, 1024), lines: make([]int, 0, 1024)},
 		Parent:          parent,
 		Upvalues:        newVarNamePool(0),
 		Block:           newCodeBlock(newVarNamePool(0), labelNoJump, nil, nil, 0),
@@ -508,7 +531,7 @@ func (fc *funcContext) ResolveGoto(from, to *gotoLabelDesc, index int) {
 		varName := fc.Block.LocalVars.Names()[len(fc.Block.LocalVars.Names())-1]
 		raiseCompileError(fc, to.Line+1, "<goto %s> at line %d jumps into the scope of local '%s'", to.Name, from.Line, varName)
 	}
-	fc.Code.SetSbx(from.Pc, to.Id)
+	fc.Code.SetJmpLabel(from.Pc, to.Id)
 	delete(fc.unresolvedGotos, index)
 }
 
@@ -1050,7 +1073,7 @@ func compileIfStmt(context *funcContext, stmt *ast.IfStmt) { // {{{
 	context.SetLabelPc(thenlabel, context.Code.LastPC())
 	compileBlock(context, stmt.Then)
 	if len(stmt.Else) > 0 {
-		context.Code.AddASbx(OP_JMP, 0, endlabel, sline(stmt))
+		context.Code.AddJmp(endlabel, sline(stmt))
 	}
 	context.SetLabelPc(elselabel, context.Code.LastPC())
 	if len(stmt.Else) > 0 {
@@ -1073,7 +1096,7 @@ func compileBranchCondition(context *funcContext, reg int, expr ast.Expr, thenla
 	switch ex := expr.(type) {
 	case *ast.FalseExpr, *ast.NilExpr:
 		if !hasnextcond {
-			code.AddASbx(OP_JMP, 0, elselabel, sline(expr))
+			code.AddJmp(elselabel, sline(expr))
 			return
 		}
 	case *ast.TrueExpr, *ast.NumberExpr, *ast.StringExpr:
@@ -1105,7 +1128,7 @@ func compileBranchCondition(context *funcContext, reg int, expr ast.Expr, thenla
 	a := reg
 	compileExprWithMVPropagation(context, expr, &reg, &a)
 	code.AddABC(OP_TEST, a, 0, 0^flip, sline(expr))
-	code.AddASbx(OP_JMP, 0, jumplabel, sline(expr))
+	code.AddJmp(jumplabel, sline(expr))
 } // }}}
 
 func compileWhileStmt(context *funcContext, stmt *ast.WhileStmt) { // {{{
@@ -1119,7 +1142,7 @@ func compileWhileStmt(context *funcContext, stmt *ast.WhileStmt) { // {{{
 	context.EnterBlock(elselabel, stmt)
 	compileChunk(context, stmt.Stmts, false)
 	context.CloseUpvalues()
-	context.Code.AddASbx(OP_JMP, 0, condlabel, eline(stmt))
+	context.Code.AddJmp(condlabel, eline(stmt))
 	context.LeaveBlock()
 	context.SetLabelPc(elselabel, context.Code.LastPC())
 } // }}}
@@ -1140,10 +1163,10 @@ func compileRepeatStmt(context *funcContext, stmt *ast.RepeatStmt) { // {{{
 
 	if n > -1 {
 		label := context.NewLabel()
-		context.Code.AddASbx(OP_JMP, 0, label, eline(stmt))
+		context.Code.AddJmp(label, eline(stmt))
 		context.SetLabelPc(elselabel, context.Code.LastPC())
 		context.Code.AddABC(OP_CLOSE, n, 0, 0, eline(stmt))
-		context.Code.AddASbx(OP_JMP, 0, initlabel, eline(stmt))
+		context.Code.AddJmp(initlabel, eline(stmt))
 		context.SetLabelPc(label, context.Code.LastPC())
 	}
 
@@ -1164,7 +1187,7 @@ func compileBreakStmt(context *funcContext, stmt *ast.BreakStmt) { // {{{
 				context.Code.AddABC(OP_NOP, 0, 0, 0, sline(stmt))
 				context.pendingBreaks = append(context.pendingBreaks, &pendingBreak{context.Code.LastPC(), closereg, left})
 			}
-			context.Code.AddASbx(OP_JMP, 0, label, sline(stmt))
+			context.Code.AddJmp(label, sline(stmt))
 			return
 		}
 	}
@@ -1250,7 +1273,7 @@ func compileGenericForStmt(context *funcContext, stmt *ast.GenericForStmt) { // 
 	compileRegAssignment(context, stmt.Names, stmt.Exprs, context.RegTop()-3, 3, sline(stmt))
 
 	context.StartLocalVarsHere(3)
-	code.AddASbx(OP_JMP, 0, fllabel, sline(stmt))
+	code.AddJmp(fllabel, sline(stmt))
 
 	for _, name := range stmt.Names {
 		context.RegisterLocalVar(name)
@@ -1264,7 +1287,7 @@ func compileGenericForStmt(context *funcContext, stmt *ast.GenericForStmt) { // 
 
 	context.SetLabelPc(fllabel, code.LastPC())
 	code.AddABC(OP_TFORLOOP, rgen, 0, nnames, sline(stmt))
-	code.AddASbx(OP_JMP, 0, bodylabel, sline(stmt))
+	code.AddJmp(bodylabel, sline(stmt))
 	context.EndLocalVarsHere(hidden)
 
 	context.SetLabelPc(endlabel, code.LastPC())
@@ -1283,7 +1306,7 @@ func compileLabelStmt(context *funcContext, stmt *ast.LabelStmt, isLastStmt bool
 func compileGotoStmt(context *funcContext, stmt *ast.GotoStmt) { // {{{
 	// placeholder: becomes OP_CLOSE only if the jump leaves the scope of captured locals
 	context.Code.AddABC(OP_NOP, 0, 0, 0, sline(stmt))
-	context.Code.AddASbx(OP_JMP, 0, labelNoJump, sline(stmt))
+	context.Code.AddJmp(labelNoJump, sline(stmt))
 	label := newLabelDesc(-1, stmt.Label, context.Code.LastPC(), sline(stmt), context.BlockLocalVarsCount())
 	context.AddUnresolvedGoto(label)
 	context.FindLabel(context.Block, label, context.gotosCount-1)
@@ -1685,7 +1708,7 @@ func compileRelationalOpExprAux(context *funcContext, reg int, expr *ast.Relatio
 	case "~=":
 		code.AddABC(OP_EQ, 1^flip, b, c, sline(expr))
 	}
-	code.AddASbx(OP_JMP, 0, label, sline(expr))
+	code.AddJmp(label, sline(expr))
 } // }}}
 
 func compileRelationalOpExpr(context *funcContext, reg int, expr *ast.RelationalOpExpr, ec *expcontext) { // {{{
@@ -1722,7 +1745,7 @@ func compileLogicalOpExpr(context *funcContext, reg int, expr *ast.LogicalOpExpr
 	}
 
 	lastinst := code.Last()
-	if opGetOpCode(lastinst) == OP_JMP && opGetArgSbx(lastinst) == endlabel {
+	if opGetOpCode(lastinst) == OP_JMP && code.JmpLabel(code.LastPC()) == endlabel {
 		code.Pop()
 	}
 
@@ -1742,34 +1765,34 @@ func compileLogicalOpExprAux(context *funcContext, reg int, expr ast.Expr, ec *e
 	switch ex := expr.(type) {
 	case *ast.FalseExpr:
 		if elselabel == lb.e {
-			code.AddASbx(OP_JMP, 0, lb.f, sline(expr))
+			code.AddJmp(lb.f, sline(expr))
 			lb.b = true
 		} else {
-			code.AddASbx(OP_JMP, 0, elselabel, sline(expr))
+			code.AddJmp(elselabel, sline(expr))
 		}
 		return
 	case *ast.NilExpr:
 		if elselabel == lb.e {
 			compileExpr(context, reg, expr, ec)
-			code.AddASbx(OP_JMP, 0, lb.e, sline(expr))
+			code.AddJmp(lb.e, sline(expr))
 		} else {
-			code.AddASbx(OP_JMP, 0, elselabel, sline(expr))
+			code.AddJmp(elselabel, sline(expr))
 		}
 		return
 	case *ast.TrueExpr:
 		if thenlabel == lb.e {
-			code.AddASbx(OP_JMP, 0, lb.t, sline(expr))
+			code.AddJmp(lb.t, sline(expr))
 			lb.b = true
 		} else {
-			code.AddASbx(OP_JMP, 0, thenlabel, sline(expr))
+			code.AddJmp(thenlabel, sline(expr))
 		}
 		return
 	case *ast.NumberExpr, *ast.StringExpr:
 		if thenlabel == lb.e {
 			compileExpr(context, reg, expr, ec)
-			code.AddASbx(OP_JMP, 0, lb.e, sline(expr))
+			code.AddJmp(lb.e, sline(expr))
 		} else {
-			code.AddASbx(OP_JMP, 0, thenlabel, sline(expr))
+			code.AddJmp(thenlabel, sline(expr))
 		}
 		return
 	case *ast.LogicalOpExpr:
@@ -1830,7 +1853,7 @@ func compileLogicalOpExprAux(context *funcContext, reg int, expr ast.Expr, ec *e
 			code.AddABC(OP_TESTSET, sreg, a, 0^flip, sline(expr))
 		}
 	}
-	code.AddASbx(OP_JMP, 0, jumplabel, sline(expr))
+	code.AddJmp(jumplabel, sline(expr))
 } // }}}
 
 func compileFuncCallExpr(context *funcContext, reg int, expr *ast.FuncCallExpr, ec *expcontext) int { // {{{
@@ -2027,11 +2050,15 @@ func patchCode(context *funcContext) { // {{{
 			count := 0 // avoiding infinite loops
 			for jmp := inst; opGetOpCode(jmp) == OP_JMP && count < 5; jmp = context.Code.At(pc + distance + 1) {
 				var d int
-				if jpc := pc + distance + 1; count > 0 && jpc < pc {
+				jpc := pc
+				if count > 0 {
+					jpc = pc + distance + 1
+				}
+				if count > 0 && jpc < pc {
 					// this jump has been patched already: its sBx is a distance, not a label
 					d = jpc + opGetArgSbx(jmp) - pc
 				} else {
-					d = context.GetLabelPc(opGetArgSbx(jmp)) - pc
+					d = context.GetLabelPc(context.Code.JmpLabel(jpc)) - pc
 				}
 				if d > opMaxArgSbx || d < -opMaxArgSbx {
 					if distance == 0 {
